@@ -7,7 +7,7 @@ import os
 import struct
 from ipaddress import IPv6Address
 
-from .. import enc, ledger, world
+from .. import enc, ledger, thrscen, world
 from ..world import K
 
 LEVEL = 'exploration'
@@ -402,6 +402,9 @@ def run(ctx):
         for key, tname, desc, detail, hx in bad:
             ctx.violation('%s-%s' % (key, tname), "%s (%s): %s" % (tname, desc, detail), {'fam': '2', 'type': tname, 'bytes': hx})
     n3 = store_ids(ctx)
+    # ---- ids and encodings of values built in memory while another thread encodes / hashes
+    thr = thrscen.run(ctx, 'C07', 1 if ctx.quick else 2)
+    ctx.cov['thread_schedules'] = thr
     ctx.cov.update({
         'evaluations': n1 + n2a + n2 + n3, 'distinct_nontrivial': acc2a + dec + kinds,
         'rule': "family 1: %d grid values (encode->decode, field-wise equality, exact consumption, ids); family 2a: all %d byte "
@@ -417,6 +420,8 @@ def run(ctx):
 
 
 def replay(data, ctx):
+    if 'thread_scenario' in data:
+        return thrscen.replay(data)
     out = []
     if data['fam'] == '2a':
         from skepticoin.serialization import stream_deserialize_vlq, stream_serialize_vlq
